@@ -200,6 +200,135 @@ impl Space for Histories {
     }
 }
 
+/// Two calls of the same convenience wrapper in a row, in this process: the second answer must be what the core
+/// gives alone whatever the first call left behind (in the provider or anywhere else). The receivers are chosen
+/// to collide under plausible wrong memo keys: same zone and same UTC day but different local days of different
+/// length, same local date in zones with different rules, same instant in different calendars, zones that
+/// share their rules under different names. The whole space runs on one thread, in order, so that the first call
+/// of a pair is really the last thing the process did before the second.
+struct WrapperPairs {
+    receivers: Vec<(i128, &'static str, &'static str)>,
+}
+
+type WrapFn = fn(&ZonedDateTime) -> String;
+type CoreFn = fn(&ZonedDateTime, &FsTzdbProvider) -> String;
+
+fn shown<T: std::fmt::Debug>(r: temporal_rs::TemporalResult<T>) -> String {
+    format!("{:?}", r.map_err(|e| e.kind()))
+}
+
+fn wrapper_table() -> Vec<(&'static str, WrapFn, CoreFn)> {
+    let d = || Duration::new(0.into(), 0.into(), 0.into(), 1.into(), 5.into(), 0.into(), 0.into(), 0.into(), 0.into(), 0.into()).unwrap();
+    let _ = d;
+    vec![
+        ("hours_in_day", |z| shown(z.hours_in_day()), |z, p| shown(z.hours_in_day_with_provider(p))),
+        ("start_of_day", |z| shown(z.start_of_day().map(|x| x.epoch_nanoseconds().as_i128())), |z, p| shown(z.start_of_day_with_provider(p).map(|x| x.epoch_nanoseconds().as_i128()))),
+        ("year", |z| shown(z.year()), |z, p| shown(z.year_with_provider(p))),
+        ("month", |z| shown(z.month()), |z, p| shown(z.month_with_provider(p))),
+        ("month_code", |z| shown(z.month_code()), |z, p| shown(z.month_code_with_provider(p))),
+        ("day", |z| shown(z.day()), |z, p| shown(z.day_with_provider(p))),
+        ("hour", |z| shown(z.hour()), |z, p| shown(z.hour_with_provider(p))),
+        ("minute", |z| shown(z.minute()), |z, p| shown(z.minute_with_provider(p))),
+        ("second", |z| shown(z.second()), |z, p| shown(z.second_with_provider(p))),
+        ("offset", |z| shown(z.offset()), |z, p| shown(z.offset_with_provider(p))),
+        ("offset_nanoseconds", |z| shown(z.offset_nanoseconds()), |z, p| shown(z.offset_nanoseconds_with_provider(p))),
+        ("era_year", |z| shown(z.era_year()), |z, p| shown(z.era_year_with_provider(p))),
+        ("day_of_week", |z| shown(z.day_of_week()), |z, p| shown(z.day_of_week_with_provider(p))),
+        ("day_of_year", |z| shown(z.day_of_year()), |z, p| shown(z.day_of_year_with_provider(p))),
+        ("week_of_year", |z| shown(z.week_of_year()), |z, p| shown(z.week_of_year_with_provider(p))),
+        ("days_in_month", |z| shown(z.days_in_month()), |z, p| shown(z.days_in_month_with_provider(p))),
+        ("days_in_year", |z| shown(z.days_in_year()), |z, p| shown(z.days_in_year_with_provider(p))),
+        ("in_leap_year", |z| shown(z.in_leap_year()), |z, p| shown(z.in_leap_year_with_provider(p))),
+        ("to_plain_date", |z| shown(z.to_plain_date()), |z, p| shown(z.to_plain_date_with_provider(p))),
+        ("to_plain_time", |z| shown(z.to_plain_time()), |z, p| shown(z.to_plain_time_with_provider(p))),
+        ("to_plain_datetime", |z| shown(z.to_plain_datetime()), |z, p| shown(z.to_plain_datetime_with_provider(p))),
+        (
+            "to_ixdtf_string",
+            |z| shown(z.to_ixdtf_string(DisplayOffset::Auto, DisplayTimeZone::Auto, DisplayCalendar::Auto, ToStringRoundingOptions::default())),
+            |z, p| shown(z.to_ixdtf_string_with_provider(DisplayOffset::Auto, DisplayTimeZone::Auto, DisplayCalendar::Auto, ToStringRoundingOptions::default(), p)),
+        ),
+        (
+            "add(P1DT5H)",
+            |z| shown(z.add(&Duration::new(0.into(), 0.into(), 0.into(), 1.into(), 5.into(), 0.into(), 0.into(), 0.into(), 0.into(), 0.into()).unwrap(), None).map(|x| x.epoch_nanoseconds().as_i128())),
+            |z, p| shown(z.add_with_provider(&Duration::new(0.into(), 0.into(), 0.into(), 1.into(), 5.into(), 0.into(), 0.into(), 0.into(), 0.into(), 0.into()).unwrap(), None, p).map(|x| x.epoch_nanoseconds().as_i128())),
+        ),
+        (
+            "with_plain_time(02:30)",
+            |z| shown(z.with_plain_time(temporal_rs::PlainTime::try_new(2, 30, 0, 0, 0, 0).unwrap()).map(|x| x.epoch_nanoseconds().as_i128())),
+            |z, p| shown(z.with_plain_time_and_provider(temporal_rs::PlainTime::try_new(2, 30, 0, 0, 0, 0).unwrap(), p).map(|x| x.epoch_nanoseconds().as_i128())),
+        ),
+        (
+            "Duration::round(relativeTo)",
+            |z| {
+                let mut o = RoundingOptions::default();
+                o.largest_unit = Some(Unit::Day);
+                shown(Duration::new(0.into(), 0.into(), 0.into(), 0.into(), 49.into(), 0.into(), 0.into(), 0.into(), 0.into(), 0.into()).unwrap().round(o, Some(RelativeTo::ZonedDateTime(z.clone()))))
+            },
+            |z, p| {
+                let mut o = RoundingOptions::default();
+                o.largest_unit = Some(Unit::Day);
+                shown(Duration::new(0.into(), 0.into(), 0.into(), 0.into(), 49.into(), 0.into(), 0.into(), 0.into(), 0.into(), 0.into()).unwrap().round_with_provider(o, Some(RelativeTo::ZonedDateTime(z.clone())), p))
+            },
+        ),
+    ]
+}
+
+impl WrapperPairs {
+    fn new() -> Self {
+        let mut receivers = vec![];
+        // 2024-03-10 (New York / Toronto spring forward, a 23-hour local day) and 2024-11-03 (25 hours)
+        let h = 3_600_000_000_000i128;
+        for (base, offs) in [(1_710_028_800_000_000_000i128, [3i128, 12, 27, 30]), (1_730_592_000_000_000_000, [3, 5, 6, 29])] {
+            for o in offs {
+                for zone in ["America/New_York", "America/Toronto", "Europe/London"] {
+                    receivers.push((base + o * h + 1_002_003, zone, "iso8601"));
+                }
+            }
+        }
+        // Lord Howe's half-hour change (2024-04-06T15:00Z), and the same instants in other calendars
+        for o in [-2i128, 0, 1, 10] {
+            receivers.push((1_712_415_600_000_000_000 + o * h, "Australia/Lord_Howe", "iso8601"));
+        }
+        receivers.push((1_710_028_800_000_000_000 + 12 * h + 1_002_003, "America/New_York", "japanese"));
+        receivers.push((1_710_028_800_000_000_000 + 12 * h + 1_002_003, "America/New_York", "hebrew"));
+        receivers.push((1_710_028_800_000_000_000 + 12 * h + 1_002_003, "+05:30", "iso8601"));
+        receivers.push((1_710_028_800_000_000_000 + 12 * h + 1_002_003, "-04:00", "iso8601"));
+        WrapperPairs { receivers }
+    }
+}
+
+impl Space for WrapperPairs {
+    fn name(&self) -> String {
+        "c20.wrapper_pair_histories".into()
+    }
+    fn len(&self) -> u64 {
+        (self.receivers.len() * self.receivers.len()) as u64
+    }
+    fn block(&self) -> u64 {
+        self.len()
+    }
+    fn eval(&self, i: u64, out: &mut Out) {
+        let n = self.receivers.len();
+        let (a, b) = (self.receivers[i as usize / n], self.receivers[i as usize % n]);
+        let mk = |r: (i128, &str, &str)| ZonedDateTime::try_new(r.0, r.2.parse::<Calendar>().unwrap(), TimeZone::try_from_str(r.1).unwrap()).unwrap();
+        let (za, zb) = (mk(a), mk(b));
+        let p = FsTzdbProvider::default();
+        if a != b {
+            out.nontrivial += 1;
+        }
+        for (name, w, c) in wrapper_table() {
+            let first = call_inf(|| w(&za));
+            let second = call_inf(|| w(&zb));
+            let alone = c(&zb, &p);
+            let _ = first;
+            out.lockstep("second call of a wrapper returns what the core returns alone", &Ok(alone), &second, |x, y| x == y, || vec![("wrapper", name.to_string()), ("first_receiver", format!("{a:?}")), ("second_receiver", format!("{b:?}"))]);
+        }
+    }
+    fn describe(&self) -> Value {
+        json!({"receivers": self.receivers.len(), "ordered_pairs": self.len(), "wrappers": wrapper_table().len(), "threads": 1})
+    }
+}
+
 struct Loom {
     results: Vec<Value>,
 }
@@ -244,7 +373,7 @@ pub fn run(env: &Env) -> i32 {
     let mut rep = Report::new(
         env,
         "model_checking",
-        "schedules: every interleaving of the real convenience wrappers at their synchronisation points under loom (2-4 threads, 1-3 calls each, zones forced to collide and to differ, an erroring call), up to the stated preemption bounds; histories: every sequence of 13 actions (ok calls on 4 zones from the main or a spawned thread, a zone named in another letter case, 3 erroring calls, a panic while holding the provider lock from the main or a spawned thread, and such a panic while another thread is parked on the lock) up to depth 3 (quick) / 4 (thorough), each in its own process; non-trivial = histories containing a failing or panicking call",
+        "schedules: every interleaving of the real convenience wrappers at their synchronisation points under loom (2-4 threads, 1-3 calls each, zones forced to collide and to differ, an erroring call), up to the stated preemption bounds; histories: every sequence of 13 actions (ok calls on 4 zones from the main or a spawned thread, a zone named in another letter case, 3 erroring calls, a panic while holding the provider lock from the main or a spawned thread, and such a panic while another thread is parked on the lock) up to depth 3 (quick) / 4 (thorough), each in its own process; non-trivial = histories containing a failing or panicking call; pairs: 25 wrappers called twice in a row on every ordered pair of 34 receivers chosen to collide under wrong memo keys, the second answer against the core alone",
     );
     rep.assumptions.push("loom explores sequentially consistent interleavings at loom synchronisation points; the wrappers use one mutex and a lazily initialised static, nothing weaker. The sequential reference is the core method with a fresh FsTzdbProvider".into());
     let loom_json = std::env::var("TMC_LOOM_JSON").ok().and_then(|p| std::fs::read_to_string(p).ok()).and_then(|t| serde_json::from_str::<Value>(&t).ok());
@@ -261,6 +390,7 @@ pub fn run(env: &Env) -> i32 {
         }
     }
     rep.run(&Histories { depth: env.tier.pick(3, 4) });
+    rep.run(&WrapperPairs::new());
     // audit: no other synchronisation primitives / unsafe Send-Sync in the crate that loom would not see
     let mut other_sync = vec![];
     for f in walk("/repo/src") {
